@@ -173,7 +173,7 @@ Proof.
   intros H L b HL HI. destruct (H L b HL HI) as (H1 & H2 & H3).
   unfold safe_at, run, trace, eof_is_none in *.
   destruct (r b) as [[[a b']| | |p] t]; cbn [fst snd] in *.
-  - split; [exact I|]. split; [exact H2|]. intros a0 b0 E. inversion E; subst. apply (H3 a b' eq_refl).
+  - split; [exact I|]. split; [exact H2|]. intros a0 b0 E. inversion E; subst. apply (H3 _ _ eq_refl).
   - split; [exact I|]. split; [exact H2|]. intros a0 b0 E. inversion E; subst. rewrite lenN_nil. lia.
   - split; [exact I|]. split; [exact H2|]. intros; discriminate.
   - contradiction.
